@@ -587,7 +587,7 @@ namespace xtl
                     if (std::isinf(c) || std::isinf(d))
                     {
                         c = copysign(std::isinf(c) ? value_type(1) : value_type(0), c);
-                        d = copysign(std::isinf(c) ? value_type(1) : value_type(0), d);
+                        d = copysign(std::isinf(d) ? value_type(1) : value_type(0), d);
                         if (std::isnan(a))
                         {
                             a = copysign(value_type(0), a);
